@@ -224,6 +224,54 @@ impl IsaGen {
             }
             rules.push(Rule { mnemonic: mn, ops, prod, size });
         }
+        // rules whose production has no parameter but asserts something about the position
+        // (or about a global symbol): their constraint can only be judged with final addresses
+        let npos = t.weighted(&[3, 2, 1]);
+        for k in 0..npos {
+            let mn = t.pick(&mns).to_string();
+            let cond = match t.draw(5) {
+                0 => E::Bin(BinOp::Eq, Box::new(E::Bin(BinOp::Mod, Box::new(var("$")), Box::new(lit_of(*t.pick(&[2u64, 4]))))), Box::new(lit_of(0))),
+                1 => E::Bin(BinOp::Lt, Box::new(var("$")), Box::new(lit_of(*t.pick(&[4u64, 8, 16, 32])))),
+                2 => E::Bin(BinOp::Ge, Box::new(var("$")), Box::new(lit_of(*t.pick(&[1u64, 2, 4, 8])))),
+                3 => E::Bin(BinOp::Ne, Box::new(E::Bin(BinOp::And, Box::new(var("$")), Box::new(lit_of(1)))), Box::new(lit_of(1))),
+                _ => E::Bin(BinOp::Lt, Box::new(var("g0")), Box::new(lit_of(*t.pick(&[4u64, 8, 16])))),
+            };
+            let bits = *t.pick(&[8usize, 8, 16]);
+            let lit = sized_lit(0xa5 + k as u64, bits);
+            let mut ops = Vec::new();
+            if t.chance(1, 3) {
+                ops.push(PatOp { wrap: Wrap::None, op: POp::Lit(t.pick(REGS).to_string()) });
+            }
+            let key = (mn.to_ascii_lowercase(), ops.len());
+            let mut size = bits;
+            let mut parts = vec![lit];
+            if self.size_static {
+                match group_size.get(&key) {
+                    Some(&g) if g >= size => pad_to(&mut parts, &mut size, g),
+                    Some(&g) => {
+                        parts = vec![E::SliceShort(Box::new(lit_of(0x55 + k as u64)), Box::new(lit_of(g as u64)))];
+                        size = g;
+                    }
+                    None => {
+                        group_size.insert(key, size);
+                    }
+                }
+            }
+            rules.push(Rule { mnemonic: mn, ops, prod: E::Block(vec![E::Call("assert".into(), vec![cond]), concat_all(parts)]), size });
+        }
+        if !self.size_static && t.chance(1, 2) {
+            // a production whose size depends on the operand through a conditional
+            let mn = t.pick(&mns).to_string();
+            let k1 = *t.pick(&[4u64, 8, 16, 128]);
+            let short = concat_all(vec![sized_lit(0x1, 4), E::SliceShort(Box::new(var("p0")), Box::new(lit_of(4)))]);
+            let long = concat_all(vec![sized_lit(0x2, 4), E::SliceShort(Box::new(var("p0")), Box::new(lit_of(12)))]);
+            rules.push(Rule {
+                mnemonic: mn,
+                ops: vec![PatOp { wrap: Wrap::None, op: POp::Param { name: "p0".into(), ty: PType::Untyped } }],
+                prod: E::Tern(Box::new(E::Bin(BinOp::Lt, Box::new(var("p0")), Box::new(lit_of(k1)))), Box::new(short), Box::new(long)),
+                size: 16,
+            });
+        }
         if !self.size_static {
             // G-CASC: families of rules with the same pattern, different sizes, selected by typed
             // widths or assert ranges (disjoint or overlapping)
